@@ -13,11 +13,16 @@ META = {
              "Hv.C30.holds_nonneg adds reply visibility for times >= 0 (wire_agrees_nonneg); not_holds_gt0 / preepoch_disagreement: "
              "with `> 0` on the wire a pre-epoch expiry is expired, indexed and invisible; not_holds_of_not_good: any deviating site "
              "(<=, missing guard, missing zero filter, swapped clear/set) has a closed witness; reload_exp: the expiry survives "
-             "close + reload under either encoding; stale_index_witness / preepoch_patch_witness: closed request-level witnesses."),
+             "close + reload under either encoding; FailKeepsExpiry (fail_keeps_expiry / not_fail_keeps_expiry): a conditional Increment that "
+             "answers 'not incremented' leaves every expiry as it was iff incFailClean — the one write path that bypasses the index; "
+             "Full = Holds ∧ FailKeepsExpiry is what the verdict is about; stale_index_witness / preepoch_patch_witness: closed "
+             "request-level witnesses."),
     "note": ("Trusted: Lean kernel; extract/c30.go; harness/c30.go + c06.go (GetByIndexStream through an in-process stream stub). The "
-             "theorems are about the extracted predicates; that the handlers apply them as modelled (index build and maintenance, "
+             "theorems are about mechanisms (the extracted predicates, the failure branch of Increment); the request-level clauses — ShiftExpired / "
+             "GetByIndex / the ExpiredAt filter answer alike on every history, ordered reads are sorted, reload preserves the index — are "
+             "TESTED (correspondence + the expiry oracle over implementation replies), not proved; that the handlers apply the predicates as modelled (index build and maintenance, "
              "claim walks, patch metadata) is validated by the correspondence run, not proved. Expiries of different keys are kept "
-             "distinct (the index sort is unstable); waits are >= 2 s away from any expiry."),
+             "distinct (the index sort is unstable). Timing: past expiries may be arbitrarily close to the case base (requests run after it), future ones are >= 20 s away, the one expiry that passes during a case is bracketed by waits (3 s of slack before, certain after)."),
     "design_ref": "§8 C30",
 }
 
@@ -46,9 +51,9 @@ def run(ctx):
     K.decide_standard(ctx, corrs, FINDINGS)
     K.report_mismatch(ctx, expiry_oracle)
     c = corrs[0][2] if corrs else K.Corr()
-    checked, devs = (0, [])
-    if corrs and not c.err and not c.mismatch:
-        checked, devs = expiry_oracle_run(ctx, c, known)
+    ostats, devs = ({}, [])
+    if corrs and not c.err:
+        ostats, devs = expiry_oracle_run(ctx, c, known)
     if ctx.thorough:
         ok, out = K.leanchecker(ctx, ["Hv.Props.C30", "Hv.Data.Expiry"])
         ctx.cov["leanchecker"] = "ok" if ok else out[-500:]
@@ -62,11 +67,11 @@ def run(ctx):
     return K.finish(
         ctx, "proof",
         rule=("histories = 8 corpus cases (pre-epoch expiry through patch / Set / increment metadata; zero, epoch and clear; claim limits "
-              "and patch-expired slide; an expiry that passes during a 4.5 s wait; reload; failed conditional increment) + random "
+              "and patch-expired slide; an expiry that passes during a 3 s wait, expiries 50 ms and 1 µs in the past; reload; failed conditional increment) + random "
               "mixes of Set with expiry, PatchTreasures metadata (set / slide / clear, clear+set), Increment with expiry metadata, "
               "ShiftExpiredTreasures, PatchExpiredTreasures, GetByIndex(EXPIRATION_TIME asc/desc, from/limit), ExpiredAt filters "
               "(lt le gt ge ne IS_EMPTY IS_NOT_EMPTY against now / base / epoch), Get/GetAll/Delete, close+reload on persistent "
-              "swamps; expiries are an hour or 2.5 s before/after the case base, 1970+1 s, pre-epoch, epoch; every case ends with "
+              "swamps; expiries are an hour / 50 ms / 1 µs before and an hour / 20 s after the case base, 1970+1 s, pre-epoch, epoch; every case ends with "
               "GetAll, GetByIndex, filter, ShiftExpired, GetAll; non-trivial = >= 3 ops; distinct = distinct case texts"),
         samples=samples,
         evaluations=len(c.ops),
@@ -74,7 +79,8 @@ def run(ctx):
         extra_cov={"correspondence": {"domain": "C30", "cases": len(c.cases), "op_lines": len(c.ops),
                                       "mismatching_lines": len(c.mismatch), "op_histogram": c.op_hist,
                                       "lines_flagged_by_model": flagged},
-                   "oracle": {"expiry_replies_checked": checked, "deviations": len(devs)}},
+                   "oracle": {"expiry_replies_judged": ostats.get("checked", 0), "expiry_request_lines": ostats.get("expiry_lines", 0),
+                              "deviations": len(devs)}},
         trusted=["Lean 4.33.0 kernel", "axioms: propext, Classical.choice, Quot.sound", "extract/c30.go", "harness/c30.go, harness/c06.go"],
     )
 
@@ -85,21 +91,34 @@ def run(ctx):
 # ShiftExpired(0) must return exactly the records GetAll showed with an expiry in the past, the
 # `ExpiredAt < now` filter the same keys, GetByIndex(asc,0,0) the records with an expiry, oldest first.
 
-def _exp_ns(tok, now_off):
-    """expiry token of a reply -> ('b', offset) relative to the base, ('a', ns) absolute, None"""
+SLACK_NS = 10_000_000_000     # a future expiry closer than this to the evaluation is not judged
+
+
+def _tok(tok):
+    """expiry token of a reply -> (era, n): era 0 = absolute ns (1970-ish or earlier), era 1 = relative to the case base"""
+    return (0 if tok[0] == "a" else 1, int(tok[1:]))
+
+
+def _past(tok, waited):
+    """True / False / None (too close to call): every evaluation happens at base + waited or later, and
+    (cases being short) well before base + waited + SLACK_NS"""
     if tok == "":
-        return None
-    return (tok[0], int(tok[1:]))
+        return False
+    era, n = _tok(tok)
+    if era == 0:
+        return True
+    if n < waited:
+        return True
+    if n > waited + SLACK_NS:
+        return False
+    return None
 
 
-def _is_past(e, elapsed_ns):
-    kind, n = e
-    if kind == "a":
-        return True          # absolute times in these histories are 1970-ish: long past
-    return n < elapsed_ns - 1_000_000_000 if n < elapsed_ns else False
+_READS = ("get", "gbk", "count", "issw", "iske", "arek", "fexp", "getidx")
 
 
-def expiry_case_devs(ops, impl, skip):
+def expiry_case_devs(ops, impl, skip, stats=None):
+    stats = stats if stats is not None else {}
     devs = []
     view = None          # key -> expiry token from the last GetAll, valid until the next mutating op
     waited = 0
@@ -108,8 +127,7 @@ def expiry_case_devs(ops, impl, skip):
         got = impl[i]
         if f[0] == "wait":
             waited += int(f[1]) * 1_000_000
-            view = None
-            continue
+            continue         # a wait changes no record: the view stays, `waited` moves
         if f[0] == "getall" and got.startswith("getall"):
             view = {}
             for item in got.split(" ")[1:]:
@@ -117,65 +135,79 @@ def expiry_case_devs(ops, impl, skip):
                 view[k] = rec.split("|")[5]
             continue
         if view is None or i in skip:
-            if f[0] not in ("get", "gbk", "count", "issw", "iske", "arek", "fexp", "getidx"):
+            if f[0] not in _READS:
                 view = None
             continue
-        # margin: expiries are >= 2 s away from any evaluation time, cases run well under 1 s between waits
-        def past(tok):
-            e = _exp_ns(tok, 0)
-            if e is None:
-                return False
-            if e[0] == "a":
-                return True
-            return e[1] < waited - 1_000_000_000
+        verdicts = {k: _past(t, waited) for k, t in view.items()}
+        decided = all(v is not None for v in verdicts.values())
         if f[0] == "shiftexp" and f[1] == "0" and got.startswith("shiftexp"):
-            want = sorted(k for k, t in view.items() if past(t))
-            have = sorted(x.split("=", 1)[0] for x in got.split(" ")[1:])
-            if want != have:
-                devs.append((i, ops[i], "shiftexp of exactly " + " ".join(want), got))
+            if decided:
+                stats["checked"] = stats.get("checked", 0) + 1
+                want = sorted(k for k, v in verdicts.items() if v)
+                have = sorted(x.split("=", 1)[0] for x in got.split(" ")[1:])
+                if want != have:
+                    devs.append((i, ops[i], "shiftexp of exactly " + " ".join(want), got))
             view = None
         elif f[0] == "fexp" and f[1] == "lt" and len(f) > 2 and f[2] == "now" and got.startswith("fexp"):
-            want = sorted(k for k, t in view.items() if past(t))
-            have = sorted(got.split(" ")[1:])
-            if want != have:
-                devs.append((i, ops[i], "fexp " + " ".join(want), got))
+            if decided:
+                stats["checked"] = stats.get("checked", 0) + 1
+                want = sorted(k for k, v in verdicts.items() if v)
+                have = sorted(got.split(" ")[1:])
+                if want != have:
+                    devs.append((i, ops[i], "fexp " + " ".join(want), got))
         elif f[0] == "getidx" and f[1:] == ["asc", "0", "0"] and got.startswith("getidx"):
-            want = sorted(k for k, t in view.items() if t != "")
-            have = sorted(x.split("=", 1)[0] for x in got.split(" ")[1:])
+            stats["checked"] = stats.get("checked", 0) + 1
+            withexp = [(_tok(t), k) for k, t in view.items() if t != ""]
+            have = [x.split("=", 1)[0] for x in got.split(" ")[1:]]
+            if len({e for e, _ in withexp}) == len(withexp):
+                want = [k for _, k in sorted(withexp)]            # ordered: oldest expiry first
+            else:
+                want, have = sorted(k for _, k in withexp), sorted(have)   # equal expiries: order is open
             if want != have:
-                devs.append((i, ops[i], "getidx of exactly " + " ".join(want), got))
-        elif f[0] not in ("get", "gbk", "count", "issw", "iske", "arek", "fexp", "getidx"):
+                devs.append((i, ops[i], "getidx in this order: " + " ".join(want), got))
+        elif f[0] not in _READS:
             view = None
     return devs
 
 
 def expiry_oracle(rep):
-    d = expiry_case_devs(rep["ops"], rep["impl"], set())
+    flags = rep.get("flags") or []
+    ops, impl = rep["ops"], rep["impl"]
+    first = next((j for j, fl in enumerate(flags[:-1]) if fl), None)
+    if first is not None:
+        return None          # a hidden expiry may exist (listed finding): GetAll cannot serve as a view
+    d = expiry_case_devs(ops, impl, set())
     for (j, op, exp, got) in d:
-        if j == len(rep["ops"]) - 1:
+        if j == len(ops) - 1:
             return "`%s` answered `%s`; the records shown by the preceding GetAll require %s" % (op, got, exp)
     return None
 
 
 def expiry_oracle_run(ctx, c, known):
-    checked, devs = 0, []
+    """always run; each case is judged up to its first mismatching line (inclusive) and up to the first
+    line the model attributes to a finding (exclusive: a record whose expiry the wire hides would
+    falsify the GetAll view)."""
+    stats, devs = {}, []
+    mism = set(c.mismatch)
     for cs in KV.cases_of(c):
-        ops = [c.ops[i] for i in cs]
-        impl = [c.impl[i] if i < len(c.impl) else "<missing>" for i in cs]
-        # a GetAll that shows a record whose expiry the wire hides (listed finding) cannot serve as a view:
-        # skip the lines the model attributes to listed findings
-        skip = {j for j, i in enumerate(cs) if i < len(c.flags) and c.flags[i] and all(f in known for f in c.flags[i])}
-        # … and invalidate views taken while a hidden expiry may exist: any flagged line poisons the rest of the case
-        first = min(skip) if skip else None
-        if first is not None:
-            ops, impl = ops[:first], impl[:first]
-        d = expiry_case_devs(ops, impl, set())
-        checked += sum(1 for o in ops if o.split(" ")[0] in ("shiftexp", "fexp", "getidx"))
+        cut = len(cs)
+        for j, i in enumerate(cs):
+            if i in mism:
+                cut = j + 1
+                break
+            if i < len(c.flags) and c.flags[i]:
+                cut = j
+                break
+        ops = [c.ops[i] for i in cs[:cut]]
+        impl = [c.impl[i] if i < len(c.impl) else "<missing>" for i in cs[:cut]]
+        stats["expiry_lines"] = stats.get("expiry_lines", 0) + sum(
+            1 for i in cs if c.ops[i].split(" ")[0] in ("shiftexp", "fexp", "getidx"))
+        d = expiry_case_devs(ops, impl, set(), stats)
         for (j, op, exp, got) in d:
             devs.append({"case": ops[0], "op": op, "expected": exp, "got": got, "ops": ops[:j + 1], "impl": impl[:j + 1]})
     if devs:
         d = devs[0]
-        ctx.violation("expiry oracle (implementation replies only): `%s` answered `%s`; the preceding GetAll requires %s"
+        ctx.violation("implementation violates the property (expiry oracle over its replies only): `%s` answered `%s`; the preceding GetAll requires %s"
                       % (d["op"], d["got"], d["expected"]),
-                      {"correspondence": "C30", "ops": d["ops"], "impl": d["impl"], "deviations": len(devs)}, tag="oracle")
-    return checked, devs
+                      {"correspondence": "C30", "ops": d["ops"], "impl": d["impl"], "deviations": len(devs)}, tag="impl")
+    return stats, devs
